@@ -228,7 +228,10 @@ def gen_universe(rng, draft="2020", max_docs=3):
         for a, b in zip(order, order[1:] + order[:1]):
             if rng.random() < 0.7 or alias_all:
                 docs[a][1].set("properties", Obj([("next", Obj([("$ref", docs[b][0])]))]))
-            if alias_all and docs[a][1].get("$id") is None:
+            has_embedded = any(isinstance(v, Obj) and isinstance(v.get("$id"), str) and not v.get("$id").startswith("#")
+                               for _, v in ((docs[a][1].get(defs_kw) or Obj()).kvs))
+            if alias_all and docs[a][1].get("$id") is None and not has_embedded:
+                # (not for documents with embedded resources: their relative $ids would move with the new base and could collide)
                 # every document of the cycle is served from one URL and names itself by another ($id): the cycle closes only if
                 # the loader cache knows a loaded document under its retrieval URL before its references are followed
                 cid = SITE + "/canon/cyc%d.json" % a
